@@ -120,6 +120,8 @@ def rules(rep, idx, fixture):
         # an accepted layout is never refused at elaboration for want of one more doubling of the shadow
         _glue16.shadow_give_up_bound(rep, idx, "C19.17")
         negative_slice_bounds(rep, idx)
+        rep.require("C19.20", 1)
+        _glue16.view_safe_operations(rep, "C19.20", idx)
         division_after_validation(rep, idx)
     if not fixture:
         from . import glue as _glue
